@@ -1090,6 +1090,18 @@ def chain_cases(tier, seed):
         f = {'cmd': 'peb', 'v': 'D', 'p': [], 'g': [gd], 'o': [], 'place': 'pre', 'ov': {}}
         cs.append({'kind': 'formula', 'tool': 'cnfgen', 'f': f, 'T': [[a, T.PAIR_PARAMS[a]], ['or', [2]]],
                    'seed': 7})
+    # a formula given by NUMBERS (its arguments are called N, d, P ... inside the
+    # tools) followed by a compression given by a GRAPH, and the other way round:
+    # the two parsers must not see each other's arguments
+    for (cmd, v, p_, nvars) in (('tseitin', 'Nd', [4, 3], 6), ('subsetcard', 'Nd', [3, 2], 6),
+                                ('subsetcard', 'Nd', [2, 1], 2), ('op', 'N', [3], 6), ('op', 'Nd', [4, 3], 12),
+                                ('parity', 'N', [3], 3), ('parity', 'N', [4], 6)):
+        f = {'cmd': cmd, 'v': v, 'p': list(p_), 'g': [], 'o': [], 'place': 'pre', 'ov': {}}
+        for tname in ('xorcomp', 'majcomp'):
+            for gd in (T._cons('bipartite', ['complete', nvars, 2], 'direct', 'CompleteBipartiteGraph', nvars, 2),
+                       T._cons('bipartite', ['shift', nvars, nvars + 1, 0, 1], 'direct', 'bipartite_shift',
+                               nvars, nvars + 1, [0, 1])):
+                cs.append({'kind': 'formula', 'tool': 'cnfgen', 'f': dict(f), 'T': [[tname, ['B', gd]]], 'seed': 7})
     # randomness at parse time (random graph argument, stored by 'save') AND at
     # build time (shuffle, mirrored by re-seeding): the seed must be applied
     # again before the formula is built, whatever its value (0 included)
